@@ -43,6 +43,7 @@ COMPILER_REPLAYS = {
     "u_dynvt": ["replay/c02/dyn_reserved_method.sh"],
     "u_dceblk": ["replay/c02/bare_builtin_stmt.sh"],
     "u_arrset": ["replay/c02/array_set_let.sh"],
+    "u_fieldnames": ["replay/c02/struct_field_names.sh"],
     "u_constrname": ["replay/c04/tparam_app.sh"],
     "u_placeholder": ["replay/c04/placeholder_field.sh"],
     "u_derive": ["replay/c18/prim_fields.sh"],
